@@ -11,7 +11,7 @@
    the free regions (index 0), the maps agree with each other, the free-index list threaded through
    slot 0 is duplicate-free and disjoint from the live indexes, all lengths are below 2^64. *)
 From Agdb Require Import Bytes Records RecordsProofs RecordsTableProofs Storage StorageSpec
-  StorageLayout StorageWp StorageOps StorageOps2 StorageRefine StorageReopen StorageOptimize StorageProofs.
+  StorageLayout StorageWp StorageOps StorageOps2 StorageRefine StorageReopen StorageOptimize StorageProofs StorageSim.
 Open Scope N_scope.
 
 (* ---- the invariant ---- *)
@@ -78,7 +78,7 @@ Print Assumptions C04_reopen_preserves.
 Theorem C04_take_free_rule :
   forall rs k rs' p s, fwf rs -> take_free rs k = Some (rs', (p, s)) ->
     m_get (fps rs) p = Some s /\ k <= s /\ (s = k \/ k + 16 <= s) /\ rs' = remove_free rs p.
-Proof. intros rs k rs' p s FW H. exact (take_free_spec rs k rs' p s FW H). Qed.
+Proof. exact take_free_spec. Qed.
 Print Assumptions C04_take_free_rule.
 
 (* ---- non-vacuity ---- *)
@@ -99,3 +99,59 @@ Example C04_tiles_nonvacuous :
   exists s', st_exec cdata ops_file s_init l = Some s' /\ lenN (cur (sdata s')) = 78 /\ fps (rtab s') = [(43, 1)].
 Proof. eexists. split; [vm_compute; reflexivity|]. split; vm_compute; reflexivity. Qed.
 Print Assumptions C04_tiles_nonvacuous.
+
+(* ================= storage level of C05 / C06 (to be moved to Props/C05.v, Props/C06.v) ================= *)
+
+(* C05 (storage level): reopening (drop + open with no transaction open), backup + open of the copy, and
+   defragmentation preserve the live map index |-> bytes exactly *)
+Theorem C05_storage_maintenance :
+  forall ops, canon ops -> forall s rg, tiles s rg ->
+  (* backup + open *)
+  (snd (reopen_copy cdata ops s) = ROk tt /\ tiles (fst (reopen_copy cdata ops s)) rg) /\
+  (* drop + open *)
+  (tx s = 0 -> dur (sdata s) = cur (sdata s) ->
+   snd (reopen cdata ops s) = ROk tt /\ tiles (fst (reopen cdata ops s)) rg) /\
+  (* optimize *)
+  (snd (optimize_storage cdata ops s) = RPanic \/
+   (snd (optimize_storage cdata ops s) = ROk tt /\ tiles (fst (optimize_storage cdata ops s)) (lmap rg) /\
+    forall j, j <> 0 -> m_get (lmap rg) j = m_get rg j)).
+Proof. exact storage_maintenance. Qed.
+Print Assumptions C05_storage_maintenance.
+
+(* C06 (storage level): each of the three back-ends, modelled literally (Storage.v: mem_raw = MemoryStorage
+   with its `end < len` copy-in-place / `resize(pos); extend` split, file_raw = FileStorage::write with its
+   early return on empty writes, mapped_raw = the pair, memory answering reads), satisfies the laws of the
+   canonical byte store for every write that does not start beyond the end and every read inside the data *)
+Theorem C06_instances_lawful :
+  lawful bytes mem_raw ops_mem rd_mem /\ lawful cdata file_raw ops_file rd_file /\
+  lawful (cdata * bytes) mapped_raw ops_file rd_mapped.
+Proof. exact (conj mem_lawful (conj file_lawful mapped_lawful)). Qed.
+Print Assumptions C06_instances_lawful.
+
+(* Storage<D> is parametric in a lawful byte store: related states give equal observations for every
+   operation list, as long as the canonical run stays inside the contract *)
+Theorem C06_storage_parametric :
+  forall (T : Type) (opsT : store_ops T) (opsC : store_ops cdata) (rd : T -> cdata -> Prop),
+    canon opsC -> lawful T opsT opsC rd ->
+    forall l s1 s2, srel T rd s1 s2 -> ~ In ObFault (st_run cdata opsC s2 l) ->
+      st_run T opsT s1 l = st_run cdata opsC s2 l.
+Proof. exact sim_run. Qed.
+Print Assumptions C06_storage_parametric.
+
+(* hence, from an empty store, the three back-ends produce exactly the observations of the canonical model
+   (which C04 shows to be the abstract map's) for EVERY operation list; FileStorage and
+   FileStorageMemoryMapped agree on everything; MemoryStorage agrees with them on every history that does
+   not drop the storage (it has no persistence: a `reopen` is a backup + open there) *)
+Theorem C06_backends_agree :
+  forall l,
+  st_run bytes mem_raw (fst (with_data bytes mem_raw [])) l = st_run cdata ops_mem (fst init_mem) l /\
+  st_run cdata file_raw (fst (with_data cdata file_raw empty_cdata)) l = st_run cdata ops_file (fst init_file) l /\
+  st_run (cdata * bytes) mapped_raw (fst (with_data (cdata * bytes) mapped_raw (empty_cdata, []))) l
+    = st_run cdata ops_file (fst init_file) l.
+Proof. exact backends_agree. Qed.
+Print Assumptions C06_backends_agree.
+
+Theorem C06_mem_file_agree :
+  forall l, no_reopen l = true -> forall s, st_run cdata ops_mem s l = st_run cdata ops_file s l.
+Proof. exact mem_file_agree. Qed.
+Print Assumptions C06_mem_file_agree.
